@@ -54,6 +54,7 @@ func VerifC10_Version() {
 	} else {
 		verifapi.Cover("other version byte")
 		verifapi.Assert(err != nil, "every version byte other than '0' is rejected as an unknown version")
+		_ = err.Error() // the error is reported to the user: it must be renderable
 	}
 	verifapi.Quiesce()
 }
